@@ -114,8 +114,8 @@ impl Transport {
 			}
 		}
 		self.position = position;
-		if self.position >= num_frames {
-			self.playing = false;
-		}
+		// a transport that has reached the end (the last frames may still be playing)
+		// starts again when the target lies inside the sound
+		self.playing = self.position < num_frames;
 	}
 }
